@@ -280,6 +280,29 @@ def run(tier):
     rep.bounds['depth'] = depth
     rep.bounds['max_list_length'] = MAXLEN
     explore(rep, dom, max_depth=depth, binary_pool=seq_others, max_states=(20000 if tier == 'quick' else 400000))
+    # every bracketing of a concatenation of 2..5 (thorough 6) parts of different representations
+    from ..table import run_table
+    parts = [('[1]', [1]), ('[2, 3]', [2, 3]), ('range(4, 6)', [4, 5]), ('[6].map(inc)', [7]), ('[8, 9, 10].skip(1)', [9, 10]), ('[11, 12]', [11, 12]), ('ids([])', [])]
+
+    def trees(lo, hi):
+        if hi - lo == 1:
+            yield parts[lo][0], list(parts[lo][1])
+            return
+        for mid in range(lo + 1, hi):
+            for le, lv in trees(lo, mid):
+                for re_, rv in trees(mid, hi):
+                    yield '(%s + %s)' % (le, re_), lv + rv
+    chain = []
+    for k in range(2, (7 if tier == 'quick' else 8)):
+        for start in range(0, len(parts) - k + 1):
+            for expr, val in trees(start, start + k):
+                n = len(val)
+                obs = '(S.len(), S == %s, S.to_array(), [%s], S.skip(1).to_array(), S.take(%d).to_array(), (S + [0]).len(), ([0] + S)[%d])' % (
+                    lit(val), ', '.join('S[%d]' % i for i in range(n)), max(n - 1, 0), n)
+                exp = (n, True, Seq(val), Seq(val), Seq(val[1:]), Seq(val[:max(n - 1, 0)]), n + 1, val[-1] if val else 0)
+                chain.append({'sig': 'C15|chain-shape|%s' % expr, 'src': 'let S = %s; %s' % (expr, obs), 'exp': exp})
+    rep.bounds['chain_shapes'] = len(chain)
+    run_table(rep, chain, {'prelude': [dom.prelude]}, chunk=100)
     rep.sample({'edge': 'range(2, 11, 3) --skip(1)--> [5, 8] (repr Slice(Range))'})
     rep.sample({'edge': '[1, 2, 3] --insert(-1, 9)--> [1, 2, 9, 3] or an error value'})
     rep.sample({'edge': 'count() --take(2)--> [0, 1]'})
